@@ -130,6 +130,17 @@ def _evaluate(case):
                     if o2 != o1 and o2 != ["valid_addr"]:
                         ev.dev("operands-changed-by-observer", instruction=[a, m, o1], observed=o2)
                         break
+    if not ev.deviations:
+        # a `style` entry in the rule concerns binaries (it selects objdump's syntax); for a listing that is given as text it must not
+        # change how the lines are read
+        sty = ["intel", "att"][len(stream) % 2]
+        r3 = jasm_io.stream_of(text, config={"style": sty})
+        if r3[0] == "exc":
+            ev.dev("parser-exception", with_config="style: " + sty, error=list(r3[1:]))
+        elif r3[0] == "ok" and r3[1] != stream:
+            got3 = decode_stream(r3[1])
+            k3 = next((q for q, (x, y) in enumerate(zip(got3 or [], got or [])) if x != y), None)
+            ev.dev("stream-differs-with-style-in-config", style=sty, first_difference=[got3[k3] if got3 and k3 is not None else None, got[k3] if got and k3 is not None else None])
     mix = any(ops == [""] for _, _, ops in want) and any(len(ops) >= 2 for _, _, ops in want) and any(o.startswith("[") for _, _, ops in want for o in ops)
     if mix:
         ev.tags.append("nontrivial-mix")
